@@ -83,11 +83,13 @@ pub struct Scn {
     pub fini: Option<Hook>,
     /// dropping the returned value must release what it owns (false for plain-data handles such as `TerminalHandle`)
     pub drop_releases: bool,
+    /// the scenario works on the process's own stdin: not run from start states with 0..2 closed
+    pub fixed_stdio: bool,
     pub label: Option<Box<dyn Fn(&str, usize, usize) -> Option<String>>>,
 }
 
 fn scn(name: &str, op: impl FnMut(&mut Env) -> Ret + 'static) -> Scn {
-    Scn { name: name.to_string(), init: None, prepare: None, op: Box::new(op), cleanup: None, fini: None, drop_releases: true, label: None }
+    Scn { name: name.to_string(), init: None, prepare: None, op: Box::new(op), cleanup: None, fini: None, drop_releases: true, fixed_stdio: false, label: None }
 }
 impl Scn {
     fn init(mut self, f: impl FnMut(&mut Env) + 'static) -> Self {
@@ -100,6 +102,10 @@ impl Scn {
     }
     fn clean(mut self, f: impl FnMut(&mut Env) + 'static) -> Self {
         self.cleanup = Some(Box::new(f));
+        self
+    }
+    fn fixed_stdio(mut self) -> Self {
+        self.fixed_stdio = true;
         self
     }
     fn plain_handle(mut self) -> Self {
@@ -828,7 +834,8 @@ pub fn all() -> Vec<Scn> {
             let mut junk = [0u8; 256];
             while libc::read(e.aux[0], junk.as_mut_ptr() as *mut _, 256) > 0 {}
             libc::write(e.aux[0], b"secret\n".as_ptr() as *const _, 7);
-        }),
+        })
+        .fixed_stdio(),
     );
 
     // ------------------------------------------------------------------ io_uring
